@@ -62,7 +62,7 @@ theorem u8_pos_of_ne (t : UInt8) (h : t ≠ 0) : t > 0 := by
 theorem unmarshal_marshal (s : Schema) (vs : List Val) (h : WF s vs) :
     ∃ b, marshal s vs = some b ∧
       (b.length < 4294967296 → b ≠ [] → unmarshal s b = .ok vs) := by
-  obtain ⟨body, hbody⟩ := marshalFields_isSome vs
+  obtain ⟨body, hbody⟩ := marshalFields_isSome vs s.fields h.typed
   have hfe : s.fields.isEmpty = false := by
     cases hf : s.fields with
     | nil => exact absurd hf h.fields_ne
